@@ -452,14 +452,32 @@ func (fc *FuncCtx) execBuiltin(fr *Frame, st *State, b *ssa.Builtin, com *ssa.Ca
 		if !isSliceSort(d.Sort) || d.Sort != s.Sort {
 			unsupported("copy on sorts %s, %s", d.Sort.Name, s.Sort.Name)
 		}
-		if dv.Origin == nil || dv.Origin.Root != nil {
+		org := dv.Origin
+		off := c.Int(0)
+		if org == nil {
+			// copy(x[lo:hi], src): the destination is a sub-slice of a variable; write through to that variable at offset lo
+			if sl, ok := com.Args[0].(*ssa.Slice); ok {
+				if base := fc.valOf(fr, sl.X); base.Origin != nil && base.Origin.Root == nil {
+					org = base.Origin
+					if sl.Low != nil {
+						off = v.asTerm(st, fc.valOf(fr, sl.Low))
+					}
+				}
+			}
+		}
+		if org == nil || org.Root != nil {
 			unsupported("copy into a slice that was not loaded from a variable")
 		}
-		cur := v.load(st, dv.Origin)
+		cur := v.load(st, org)
 		dl, sl := c.FieldOf(d, 1), c.FieldOf(s, 1)
 		n := c.Ite(c.Cmp("<=", dl, sl), dl, sl)
-		fc.noteParamMutation(dv.Origin.extend(PathElem{Field: -1, Idx: c.Int(0), Slice: true}, nil, nil))
-		v.store(st, dv.Origin, c.Ctor(d.Sort, v.spliceArr(c.FieldOf(cur, 0), c.FieldOf(s, 0), n), c.FieldOf(cur, 1)))
+		fc.noteParamMutation(org.extend(PathElem{Field: -1, Idx: c.Int(0), Slice: true}, nil, nil))
+		srcArr := c.FieldOf(s, 0)
+		if off.Op == "int" && off.IntVal.Sign() == 0 {
+			v.store(st, org, c.Ctor(cur.Sort, v.spliceArr(c.FieldOf(cur, 0), srcArr, n), c.FieldOf(cur, 1)))
+		} else {
+			v.store(st, org, c.Ctor(cur.Sort, v.spliceOffArr(c.FieldOf(cur, 0), srcArr, off, n), c.FieldOf(cur, 1)))
+		}
 		return Val{T: n, GoT: types.Typ[types.Int]}
 	case "min", "max":
 		r := arg(0)
@@ -583,7 +601,29 @@ func (fc *FuncCtx) opaqueCall(fr *Frame, st *State, com *ssa.CallCommon, key str
 	na := c.Fresh("alloc", SInt)
 	st.globals["$alloc"] = na
 	st.assume(c, c.Cmp(">=", na, old))
-	return fc.freshResults(st, com, key)
+	res := fc.freshResults(st, com, key)
+	// results of calls without a contract can be named by ret(Callee, n, i) as well
+	{
+		cshort := shortFuncName(key)
+		if strings.HasPrefix(key, "dynamic:") {
+			cshort = strings.TrimPrefix(key, "dynamic:")
+		}
+		ord := fc.callCount[cshort]
+		if fc.spec == nil || len(fc.spec.CallReq) == 0 {
+			fc.callCount[cshort]++
+			ord = fc.callCount[cshort]
+		}
+		var rsv []SV
+		if res.Tuple != nil {
+			for _, r := range res.Tuple {
+				rsv = append(rsv, SV{T: r.T, GoT: r.GoT})
+			}
+		} else if res.T != nil {
+			rsv = append(rsv, SV{T: res.T, GoT: res.GoT})
+		}
+		fc.callResults[fmt.Sprintf("%s#%d", cshort, ord)] = rsv
+	}
+	return res
 }
 
 // ------------------------------------------------------------ contract calls
@@ -709,6 +749,7 @@ func (fc *FuncCtx) contractCall(fr *Frame, st *State, com *ssa.CallCommon, key s
 		val := Val{T: t, GoT: res.At(0).Type()}
 		v.assumeTyped(st, t, res.At(0).Type(), nil) // range / non-negative length of the result, as for non-pure calls
 		fc.assumeEnsures(st, st.clone(), spec, key, env.vars, []Val{val}, res)
+		fc.callResults[fmt.Sprintf("%s#%d", cshort, ord)] = []SV{{T: t, GoT: res.At(0).Type()}}
 		return val
 	}
 	pre := st.clone()
